@@ -73,13 +73,13 @@ SPECS["C14"] = {
     "level_text": "bounded: for ALL literals up to the stated length over the alphabet the solver finds no panic, non-termination or deviation from the one-pass result",
     "level_note": "trusts go/ssa, gosym (string intrinsics Index/Replace/Sprintf modelled byte-exactly), z3; alphabet and length bounded; variable a holds '{{a}}'",
     "harnesses": [
-        {"name": "H1-literal-%d" % n, "pkg": "interpreter", "files": ["interpreter/c14.go"], "fn": "VerifC14Interpolation",
+        {"name": "H1-literal-%d" % n, "pkg": "interpreter", "files": ["interpreter/c14.go", "interpreter/c07.go", "interpreter/common.go"], "fn": "VerifC14Interpolation",
          "what": "all literals of exactly %d bytes over {,},a; raw and quoted" % n, "reach": ["before-eval", "after-eval"],
          "quick": {"params": {"N": n}, "unwind": 30, "wall_s": 300, "max_steps": 3000000} if n <= 6 else None,
          "thorough": {"params": {"N": n}, "unwind": 30, "wall_s": 1500, "max_steps": 3000000}}
         for n in (2, 4, 5, 6, 8, 9)
     ] + [
-        {"name": "H1-literal-wide-%d" % n, "pkg": "interpreter", "files": ["interpreter/c14.go"], "fn": "VerifC14Interpolation",
+        {"name": "H1-literal-wide-%d" % n, "pkg": "interpreter", "files": ["interpreter/c14.go", "interpreter/c07.go", "interpreter/common.go"], "fn": "VerifC14Interpolation",
          "what": "all literals of exactly %d bytes over {,},a,space,+" % n, "reach": ["before-eval", "after-eval"],
          "quick": {"params": {"N": n, "ALPHA": 1}, "unwind": 30, "wall_s": 300, "max_steps": 3000000} if n <= 5 else None,
          "thorough": {"params": {"N": n, "ALPHA": 1}, "unwind": 30, "wall_s": 1500, "max_steps": 3000000}}
@@ -497,6 +497,10 @@ SPECS["C08"] = {
         {"name": "H4-lenient-forms", "pkg": "parser", "files": ["parser/c08.go"], "fn": "VerifC08LenientForms",
          "what": "33 lenient source forms (optional/dangling separators, parentheses, one-line blocks) and all except-clause shapes (0..2 names x comma/blank x 4 binders)", "reach": ["parsed", "reparsed"],
          "quick": {"unwind": 60, "wall_s": 900}, "thorough": {"unwind": 60, "wall_s": 1800}},
+        {"name": "H5-format-files", "pkg": "cli/tool", "files": ["tool/memfs.go", "tool/c08.go"], "fn": "VerifC08FormatFiles",
+         "what": "the real FormatFiles (filepath.Walk, ReadFile, Parse, PrettyPrint, WriteFile - all real code) over an in-memory directory tree: padded ECAL file (formatted text shorter / equal / longer than the original), second file, unparsable file, other extension; run twice",
+         "reach": ["formatted", "formatted-twice"],
+         "quick": {"unwind": 400, "wall_s": 900, "max_steps": 20000000, "interp_extra": ["flag"]}, "thorough": {"unwind": 400, "wall_s": 1800, "max_steps": 20000000, "interp_extra": ["flag"]}},
     ] + [
         {"name": "H2-strings-%d" % n, "pkg": "parser", "files": ["parser/c08.go"], "fn": "VerifC08Strings",
          "what": "string literal bodies of %d bytes in 4 forms" % n, "reach": ["parsed", "reparsed"],
@@ -505,7 +509,7 @@ SPECS["C08"] = {
         for n in (1, 2, 3, 4)
     ],
     "assumptions": ["operator table and statement templates as listed in the harness", "string alphabet as stated"],
-    "outside": ["deeper nesting", "arbitrary Unicode in strings", "the in-place format tool's file handling (FormatFiles calls Parse+PrettyPrint and writes the result)"],
+    "outside": ["deeper nesting", "arbitrary Unicode in strings", "the format tool's command line handling (flag parsing); symbolic links"],
 }
 
 _C03 = ["interpreter/common.go", "interpreter/c03.go"]
@@ -547,23 +551,28 @@ SPECS["C20"] = {
     "level_text": "bounded: all binary lengths 0..80 (> 2*(b1+b2)=72) at b1=8 (thorough also b1=16, 0..90) x all fillers over the 3-byte alphabet: the archive is found at the byte after the marker",
     "level_note": "trusts go/ssa, gosym, z3; function replacement for os/file/zip; the real 4096 geometry is covered only through the parametricity of the scan in b1",
     "harnesses": [
-        {"name": "H1-scan-%d-%d" % (lo, hi), "pkg": "cli/tool", "files": ["tool/c20.go"], "fn": "VerifC20Scan",
+        {"name": "H1-scan-%d-%d" % (lo, hi), "pkg": "cli/tool", "files": ["tool/memfs.go", "tool/c20.go"], "fn": "VerifC20Scan",
          "what": "binary lengths %d..%d, b1=8" % (lo, hi), "reach": ["scanned"],
          "quick": {"params": {"LO": lo, "HI": hi, "B1": 8}, "unwind": 200, "wall_s": 900} if q else None,
          "thorough": {"params": {"LO": lo, "HI": hi, "B1": 8}, "unwind": 200, "wall_s": 3000}}
         for (lo, hi, q) in ((0, 20, True), (21, 40, True), (41, 60, True), (61, 80, True))
     ] + [
-        {"name": "H1-scan-b16-%d-%d" % (lo, hi), "pkg": "cli/tool", "files": ["tool/c20.go"], "fn": "VerifC20Scan",
+        {"name": "H1-scan-b16-%d-%d" % (lo, hi), "pkg": "cli/tool", "files": ["tool/memfs.go", "tool/c20.go"], "fn": "VerifC20Scan",
          "what": "binary lengths %d..%d, b1=16" % (lo, hi), "reach": ["scanned"],
          "quick": None,
          "thorough": {"params": {"LO": lo, "HI": hi, "B1": 16}, "unwind": 300, "wall_s": 3000}}
         for (lo, hi) in ((0, 45), (46, 90))
     ] + [
-        {"name": "H2-tree", "pkg": "cli/tool", "files": ["tool/c20.go"], "fn": "VerifC20Tree",
+        {"name": "H2-tree", "pkg": "cli/tool", "files": ["tool/memfs.go", "tool/c20.go"], "fn": "VerifC20Tree",
          "what": "real Pack over a modelled project tree (4 shapes: same base name in two directories, nesting, empty file/directory, binary file) x module size classes x 3 source-binary lengths, real zip+deflate, real RunPackedBinary/runInterpreter: exit code = sum over all modules read back through imports",
          "reach": ["packed", "ran"],
          "quick": {"params": {"SIZES": 6, "CHUNK": 7}, "unwind": 5000, "wall_s": 900, "max_steps": 50000000, "interp_extra": _C20X},
          "thorough": {"params": {"SIZES": 8, "CHUNK": 5}, "unwind": 5000, "wall_s": 3000, "max_steps": 200000000, "interp_extra": _C20X}},
+        {"name": "H2-tree-repack", "pkg": "cli/tool", "files": ["tool/memfs.go", "tool/c20.go"], "fn": "VerifC20Tree",
+         "what": "same, the target optionally already holds the result of packing another, larger project (re-pack into the same file)",
+         "reach": ["packed", "ran"],
+         "quick": {"params": {"SIZES": 3, "CHUNK": 7, "REPACK": 1}, "unwind": 5000, "wall_s": 900, "max_steps": 80000000, "interp_extra": _C20X},
+         "thorough": {"params": {"SIZES": 6, "CHUNK": 5, "REPACK": 1}, "unwind": 5000, "wall_s": 3000, "max_steps": 200000000, "interp_extra": _C20X}},
     ],
     "assumptions": ["b1 = 8 instead of 4096 in the scan harnesses", "filler alphabet {x,#,newline}", "os/file functions replaced by an in-memory file system in the symbolic run",
                     "tree harness: real archive/zip writer+reader, CRC-32 and directory walk are interpreted; the deflate codec is replaced by an identity codec whose reader "
